@@ -129,6 +129,27 @@ CLAIMED = {
          "phaseFromZernikes and makegammas entrywise with the model. A defect that made every mode generator raise was repaired (0b9c15b)."),
    ref="5 C12",
    note="Bounded parts state their bounds in the theorems; grid-refinement convergence of the Gram matrix only tested; Reals axioms only for the real-derivative corollary."),
+ "C15": dict(
+   technique="Coq proof over a hand model (real arithmetic + binary64 witnesses for the refuted clauses) + vm_compute correspondence",
+   text=("Machine-checked proofs that the centre of gravity of a single bright pixel is that pixel, that centre of gravity (with and without "
+         "threshold, frames and stacks) and the brightest-pixel centroid are invariant under a positive factor, that content moved by (kx,ky) "
+         "inside a zero frame moves the centroid by exactly (kx,ky), that stacks give per-frame answers (always for brightest pixel; for centre "
+         "of gravity per frame of the stack path and, with no threshold, equal to the single-frame path), and the quad-cell mirror law. The two "
+         "clauses the code violates -- thresholded frame vs stack, correlation centroid for odd size with even padding -- are refuted by "
+         "binary64 witnesses evaluated in the kernel (known findings). All centroiders, incl. FFT correlation via the explicit DFT, are "
+         "compared with the implementation."),
+   ref="5 C15",
+   note="Hand model tied by correspondence; Reals axioms; correlation shift law only tested numerically (plus the kernel-evaluated witnesses)."),
+ "C16": dict(
+   technique="Coq proof over a hand model (spline as a contract) + bit-exact / recorded-oracle vm_compute correspondence",
+   text=("Machine-checked proofs that binning returns exactly the n x n block sums and preserves flux for images and stacks, that zoom_rbs is "
+         "the identity at equal size and passes through the original samples when the new grid contains the old nodes (from the spline's "
+         "interpolation contract: decides aotools' coordinate/axis handling), that the azimuthal average of a constant image is that constant "
+         "and every value lies within the data range (rings proved non-empty), and that the encircled-energy curve of a non-negative image is "
+         "within [0,1], non-decreasing and 0 for an empty mask (nested circles from C14). Binning is compared bit-exactly, zoom with every "
+         "spline evaluation recorded, radial reductions at 1e-12. zoom (interp2d) being unusable and zoom_rbs rejecting integer sizes are known findings."),
+   ref="5 C16",
+   note="FITPACK spline enters by contract (interpolation, linearity, polynomial reproduction tested numerically); numpy.interp/argmin of encircled_energy only tested."),
 }
 NOT_YET = {}
 ALL = ["C%02d" % i for i in range(1, 21)]
